@@ -252,6 +252,8 @@ def make_wires(s):
     sub = py4hw.Logic(s, 'sub')
     ws['sub:c3'] = sub.wire('c3', 1)
     ws['sub:d4'] = sub.wire('d4', 2)
+    ws['sub:clk'] = sub.wire('clk', 1)          # a user signal that happens to be called like the clock lane of the rendering
+    ws['sub:clk3'] = py4hw.Logic(s, 'div').wire('clk', 3)
     return ws
 
 
@@ -283,12 +285,13 @@ def render_task(p, cfg, rec):
             ws[x].put(sym)
         with quiet():
             sim.clk(1)
-    samples = {ws[x].getFullPath(): list(wvf.data[ws[x]]) for x in set(names)}
+    short = cfg.get('short', False)          # lanes labelled with the short wire names (get_wavedrom(shortNames=True))
+    samples = {(ws[x].name if short else ws[x].getFullPath()): list(wvf.data[ws[x]]) for x in set(names)}
     widths = [ws[x].getWidth() for x in names]
     ctx.format_forks = True
     rec.add('py4hw.logic.simulation.Waveform.get_wavedrom')
     with quiet():
-        res = run_paths(lambda: wvf.get_wavedrom())
+        res = run_paths(lambda: wvf.get_wavedrom(shortNames=True) if short else wvf.get_wavedrom())
     ctx.format_forks = False
     p.res['states'] += 1
     p.res['transitions'] += len(res)
@@ -336,7 +339,7 @@ def render_task(p, cfg, rec):
                     for x in set(names):
                         w2[x].put(values.get('%s@%d' % (x, t), 0))
                     sm.clk(1)
-                wd = wv2.get_wavedrom()
+                wd = wv2.get_wavedrom(shortNames=True) if short else wv2.get_wavedrom()
             try:
                 dec2, nc2 = decode_wavedrom(wd, widths)
             except ValueError as e:
@@ -434,6 +437,10 @@ def tasks_for(tier):
         rl += [(['a1'], 7), (['c3'], 4), (['d4'], 3), (['a1', 'b1', 'c3'], 2), (['c3', 'c3'], 3), (['d4'], 0), (['a1', 'b1'], 5)]
     for names, n in rl:
         t.append(('render %s n=%d' % ('+'.join(names), n), render_task, {'wires': names, 'n': n}))
+    # short lane names, including user signals called 'clk' (the name of the rendering's own clock lane)
+    for names, n in ([(['a1', 'sub:clk'], 3), (['sub:clk3', 'b1'], 2), (['a1', 'c3'], 2)] if quick else
+                     [(['a1', 'sub:clk'], 4), (['sub:clk3', 'b1'], 3), (['a1', 'c3'], 3), (['sub:clk'], 5), (['d4', 'sub:clk3'], 2)]):
+        t.append(('render with short names %s n=%d' % ('+'.join(names), n), render_task, {'wires': names, 'n': n, 'short': True}))
     for w, n in ([(64, 3), (72, 2)] if quick else [(64, 3), (72, 3), (65, 2), (128, 2)]):
         t.append(('render a %d-bit wire, %d samples drawn from a table of boundary values by symbolic selectors' % (w, n), wide_render_task, {'w': w, 'n': n}))
     cl = [(['a1', 'c3'], 2, 3), (['a1'], 2, 0), (['c3'], 0, 2)]
